@@ -21,7 +21,8 @@ func verifStubDo(c *xhttp.Client, method, contentType string, body []byte, timeo
 func VerifH_C19_splunkEnvelopes() {
 	n := 1 + vf.Choose("events", vf.Param("K", 3))
 	p := &Plugin{config: &Config{BatchSize_: 4}, avgEventSize: 16,
-		copyFieldsPaths: []copyFieldPaths{{fromPath: []string{"ts"}, toPath: []string{"time"}}, {fromPath: []string{"svc"}, toPath: []string{"fields", "service"}}}}
+		copyFieldsPaths: []copyFieldPaths{{fromPath: []string{"ts"}, toPath: []string{"time"}}, {fromPath: []string{"svc"}, toPath: []string{"fields", "service"}},
+			{fromPath: []string{"meta"}, toPath: []string{"fields", "meta"}}}}
 	var events []*pipeline.Event
 	want := ""
 	deliverable := 0
@@ -36,6 +37,10 @@ func VerifH_C19_splunkEnvelopes() {
 		if hasSvc {
 			doc += `,"svc":"s` + id + `"`
 		}
+		hasMeta := vf.Choose("has-nested-object", 2) == 1
+		if hasMeta {
+			doc += `,"meta":{"a":{"b":1},"c":[2]}`
+		}
 		doc += `}`
 		root := insaneJSON.Spawn()
 		_ = root.DecodeString(doc)
@@ -48,8 +53,13 @@ func VerifH_C19_splunkEnvelopes() {
 			if hasTs {
 				env += `,"time":"t` + id + `"`
 			}
-			if hasSvc {
+			switch {
+			case hasSvc && hasMeta:
+				env += `,"fields":{"service":"s` + id + `","meta":{"a":{"b":1},"c":[2]}}`
+			case hasSvc:
 				env += `,"fields":{"service":"s` + id + `"}`
+			case hasMeta:
+				env += `,"fields":{"meta":{"a":{"b":1},"c":[2]}}`
 			}
 			want += env + `}`
 		}
